@@ -21,10 +21,11 @@ type atomicMap struct {
 func AtomicMap() goutil.Map { return &atomicMap{in: goutil.AtomicMap()} }
 
 func (m *atomicMap) pt() { vsched.Point(vsched.KMap, m, nil) }
+func (m *atomicMap) rd() { vsched.Point(vsched.KMapRead, m, nil) }
 
 func (m *atomicMap) String() string { return "AtomicMap" }
 
-func (m *atomicMap) Load(key interface{}) (interface{}, bool) { m.pt(); return m.in.Load(key) }
+func (m *atomicMap) Load(key interface{}) (interface{}, bool) { m.rd(); return m.in.Load(key) }
 func (m *atomicMap) Store(key, value interface{})             { m.pt(); m.in.Store(key, value) }
 func (m *atomicMap) LoadOrStore(key, value interface{}) (interface{}, bool) {
 	m.pt()
@@ -32,7 +33,7 @@ func (m *atomicMap) LoadOrStore(key, value interface{}) (interface{}, bool) {
 }
 func (m *atomicMap) Delete(key interface{}) { m.pt(); m.in.Delete(key) }
 func (m *atomicMap) Clear()                 { m.pt(); m.in.Clear() }
-func (m *atomicMap) Len() int               { m.pt(); return m.in.Len() }
+func (m *atomicMap) Len() int               { m.rd(); return m.in.Len() }
 func (m *atomicMap) Random() (interface{}, interface{}, bool) {
 	m.pt()
 	ks := sortedKeys(m.in)
@@ -48,8 +49,11 @@ func (m *atomicMap) Random() (interface{}, interface{}, bool) {
 // value at visit time (entries deleted meanwhile are skipped), which is within
 // the documented behaviour of sync.Map.Range. The callback may block.
 func (m *atomicMap) Range(f func(key, value interface{}) bool) {
-	m.pt()
-	for _, k := range sortedKeys(m.in) {
+	m.rd()
+	for i, k := range sortedKeys(m.in) {
+		if i > 0 {
+			m.rd() // the value is (re)read after the previous callback, which may have yielded
+		}
 		v, ok := m.in.Load(k)
 		if !ok {
 			continue
